@@ -36,7 +36,7 @@ GRID_FLIPS = {  # same-product shapes: the C layer re-initialises only when the 
 }
 BAD_KINDS = ["stats_unknown", "smooth_even", "split_bad", "bbox_overlap", "sel_method", "hp01_wstype",
              "fit_none", "ptm_coords", "names_len", "ptm_coords_close",
-             "dir_stat_1d", "stats_noncallable", "stats_scalar", "split_dbad", "interp_like_bad", "fit_gauss_none"]
+             "dir_stat_1d", "stats_noncallable", "stats_scalar", "split_dbad", "interp_like_bad", "fit_gauss_none", "stats_dict_unknown"]
 WRITER_FMTS = ["swan", "swan_gz", "octopus", "json", "ww3", "netcdf", "funwave", "orcaflex"]
 NATIVE_FMTS = ["ww3", "ncswan", "wwm"]
 
@@ -74,6 +74,8 @@ def _new_recipe(rng, known_shapes):
         extra["origin_site"] = True
     if rng.random() < 0.15:
         extra["lat_desc"] = True
+    if rng.random() < 0.2:
+        extra["global_attrs"] = rng.choice(["cf", "acdd", "model"])
     if rng.random() < 0.3:
         extra["scalar_lonlat"] = True       # only takes effect for single-site datasets
     return {
@@ -163,6 +165,10 @@ def _gen_bad(rng, meta):
     if meta["kind"] != "ds" and "fit_gauss_none" in kinds:
         pass
     bad = {"k": rng.choice(kinds), "via": "da" if meta["kind"] == "da" else rng.choice(["da", "ds"])}
+    if bad["k"] == "stats_dict_unknown":
+        # names other packages use for the same quantities - not statistics of this library
+        al = rng.sample(["hm0", "tz", "t02", "t01", "tm10", "mwd", "pwd", "pdir", "spr", "hsig", "tps", "hmean"], 2)
+        bad["stats"] = {al[0]: {}, "tp": {}, al[1]: {}} if rng.random() < 0.5 else {"hs": {"tail": False}, al[0]: {}}
     if bad["k"] == "dir_stat_1d":
         bad["stat"] = rng.choice(["dm", "dspr", "dpm", "dp", "dpspr", "fdspr", "momd", "uss_x", "uss_y", "crsd"])
     return bad
@@ -328,6 +334,14 @@ def gen_plan(rng, tier="quick", prop="C18"):
                     continue
                 slot = rng.choice(cands)
             fmt = rng.choice(WRITER_FMTS)
+            if fmt == "funwave" and rng.random() < 0.6:
+                # Funwave takes one spectrum, E(f,d) or E(f): give it one (possibly with a few missing bins)
+                slot = max(metas) + 1
+                r1 = _new_recipe(rng, known_shapes)
+                r1.update(dims=[], nd=rng.choice([0, 0, 4, 6, 8]), dir_first=False, spec_last=True)
+                r1["data"] = dict(r1["data"], nan_at=-1, zero_at=-1, nan_bins=rng.choice([0, 0, 2]))
+                steps.append({"op": "new", "slot": slot, "kind": "ds", "recipe": r1, "backing": rng.choice(["numpy", "numpy", "view"])})
+                metas[slot] = {"kind": "ds", "recipe": r1, "backing": steps[-1]["backing"], "prop": prop, "all": metas, "via": None}
             fname = f"f{rng.randrange(3)}." + {"swan": "spec", "swan_gz": "spec.gz", "octopus": "oct", "json": "json", "ww3": "nc", "netcdf": "nc", "funwave": "txt", "orcaflex": "ofx"}[fmt]
             st = {"op": "writer", "slot": slot, "fmt": fmt, "file": fname, "kw": {}}
             if fmt in ("swan", "swan_gz", "octopus") and rng.random() < 0.4:
@@ -739,6 +753,9 @@ def run_bad(obj, aux, bad, extra=None):
         if st == "crsd":
             return spec.crsd(theta=90.0)
         return getattr(spec, st)()
+    if k == "stats_dict_unknown":
+        d_ = (extra if extra is not None else {}).setdefault("statsdict:" + json.dumps(bad["stats"], sort_keys=True), {k_: dict(v_) for k_, v_ in bad["stats"].items()})
+        return spec.stats(d_)
     if k == "stats_noncallable":
         return spec.stats(["hs", "freq"])
     if k == "stats_scalar":
@@ -1153,6 +1170,9 @@ def execute(arg):
                 fk, dk = construct_kwargs(store, st)
             if op == "reconstruct":
                 rargs = {k: store.get("list", list(st[k])) for k in ("use_defaults", "freq_name", "dir_name") if isinstance(st.get(k), list)}
+            if op == "bad" and st["bad"]["k"] == "stats_dict_unknown":
+                store.objs.setdefault(f"badargs{sid}", {}).setdefault("statsdict:" + json.dumps(st["bad"]["stats"], sort_keys=True),
+                                                                     {k_: dict(v_) for k_, v_ in st["bad"]["stats"].items()})
             if op == "bad" and st["bad"]["k"] == "ptm_coords_close" and sid in slots and slots[sid].kind in ("ds", "da"):
                 ex = store.objs.setdefault(f"badargs{sid}", {})
                 if "dpt32" not in ex:
